@@ -186,6 +186,32 @@ pub fn spread_events(rec: &mut Rec, r: &mut StdRng, run: u64, n: usize) {
     }
 }
 
+/// incentive weight function (hook): pairs of calls ordered in amount and duration
+pub fn weight_events(rec: &mut Rec, r: &mut StdRng, run: u64, n: usize) {
+    const DMIN: u64 = 86_400;
+    const DMAX: u64 = 31_556_926;
+    for step in 0..n {
+        let d1 = match r.gen_range(0..6) { 0 => DMIN, 1 => DMAX, 2 => DMIN + 1, 3 => DMAX - 1, 4 => 15_778_463, _ => r.gen_range(DMIN..=DMAX) };
+        let d2 = match r.gen_range(0..4) { 0 => d1, 1 => (d1 + 1).min(DMAX), 2 => DMAX, _ => r.gen_range(d1..=DMAX) };
+        let a1 = match r.gen_range(0..5) { 0 => 1, 1 => gen::amount(r, 1000), _ => gen::amount(r, 1u128 << 100) };
+        let a2 = match r.gen_range(0..4) { 0 => a1, 1 => a1 + 1, _ => a1 + gen::amount(r, a1.max(1)) };
+        let call = |d: u64, a: u128| -> (String, u128) {
+            match catch_unwind(AssertUnwindSafe(|| incentive::verif_hooks::calculate_weight(d, Uint128::new(a)))) {
+                Ok(Ok(w)) => ("ok".into(), w.u128()),
+                Ok(Err(_)) => ("rejected".into(), 0),
+                Err(_) => ("aborted".into(), 0),
+            }
+        };
+        let (r11, w11) = call(d1, a1);
+        let (r12, w12) = call(d1, a2);
+        let (r21, w21) = call(d2, a1);
+        rec.emit(json!({"ev": "weight", "run": run, "step": step,
+            "args": {"d1": d1.to_string(), "d2": d2.to_string(), "a1": s(a1), "a2": s(a2)},
+            "res": if r11 == "ok" && r12 == "ok" && r21 == "ok" { "ok" } else { "rejected" },
+            "out": {"w11": s(w11), "w12": s(w12), "w21": s(w21)}}));
+    }
+}
+
 pub fn main(seed: u64, first: u64, runs: u64, nops: usize, out: &str, kind: &str) {
     let mut rec = Rec::create(out);
     for run in first..first + runs {
@@ -195,6 +221,7 @@ pub fn main(seed: u64, first: u64, runs: u64, nops: usize, out: &str, kind: &str
         match kind {
             "cp" => cp_events(&mut rec, &mut r, run, nops),
             "spread" => spread_events(&mut rec, &mut r, run, nops),
+            "weight" => weight_events(&mut rec, &mut r, run, nops),
             _ => {
                 cp_events(&mut rec, &mut r, run, nops / 2);
                 spread_events(&mut rec, &mut r, run, nops / 2);
